@@ -894,6 +894,9 @@ def classify_key(k: ast.expr, va: str, kw: str) -> Tuple[str, str]:
         return 'bad', 'keyword arguments are not part of the key'
     if isinstance(k, ast.Call) and isinstance(k.func, ast.Name) and k.func.id in BAD_WRAPPERS:
         return 'bad', f'the key is {k.func.id}(...) of the arguments: distinct arguments can collide / equal ones differ'
+    if isinstance(k, ast.BinOp) and isinstance(k.op, ast.Add):
+        return 'bad', ('positional and keyword parts are concatenated into one flat tuple: the boundary is lost, so a trailing '
+                       'positional (name, value) pair collides with the keyword name=value')
     if not isinstance(k, ast.Tuple):
         return 'unknown', 'key is not a tuple display'
     pos_ok = kw_ok = False
